@@ -323,12 +323,20 @@ func StringWithParenthesis(expr Expression) string {
 
 // operandString returns the string representation of expr as operand of a
 // call, index, slicing or type assertion expression, surrounding it by
-// parenthesis if it is an unary or binary operator.
+// parenthesis if it is an unary or binary operator or a default expression.
 func operandString(expr Expression) string {
-	if _, ok := expr.(Operator); ok {
+	if _, ok := expr.(Operator); ok || isDefault(expr) {
 		return "(" + expr.String() + ")"
 	}
 	return expr.String()
+}
+
+// isDefault reports whether expr is a default expression. As it extends as
+// far to the right as possible, a default expression that is an operand of
+// another expression must be surrounded by parenthesis.
+func isDefault(expr Expression) bool {
+	_, ok := expr.(*Default)
+	return ok
 }
 
 // Cut indicates, in a [Text] node, how many bytes should be cut from the left
@@ -464,13 +472,13 @@ func NewBinaryOperator(pos *Position, op OperatorType, expr1, expr2 Expression) 
 // String returns the string representation of n.
 func (n *BinaryOperator) String() string {
 	var s string
-	if e, ok := n.Expr1.(Operator); ok && e.Precedence() <= n.Precedence() {
+	if e, ok := n.Expr1.(Operator); ok && e.Precedence() <= n.Precedence() || isDefault(n.Expr1) {
 		s += "(" + n.Expr1.String() + ")"
 	} else {
 		s += n.Expr1.String()
 	}
 	s += " " + n.Op.String() + " "
-	if e, ok := n.Expr2.(Operator); ok && e.Precedence() <= n.Precedence() {
+	if e, ok := n.Expr2.(Operator); ok && e.Precedence() <= n.Precedence() || isDefault(n.Expr2) {
 		s += "(" + n.Expr2.String() + ")"
 	} else {
 		s += n.Expr2.String()
@@ -1521,7 +1529,7 @@ func (n *UnaryOperator) String() string {
 	if n.Op == OperatorExtendedNot {
 		s += " "
 	}
-	if e, ok := n.Expr.(Operator); ok && (n.Op == OperatorReceive || e.Precedence() <= n.Precedence()) {
+	if e, ok := n.Expr.(Operator); ok && (n.Op == OperatorReceive || e.Precedence() <= n.Precedence()) || isDefault(n.Expr) {
 		s += "(" + n.Expr.String() + ")"
 	} else {
 		s += n.Expr.String()
